@@ -51,10 +51,22 @@ func IsKnown(prop, region, symptom string) bool {
 	return false
 }
 
-// matchPat: exact match, or prefix match when the pattern ends in '*'.
+// matchPat: glob match where '*' stands for any (possibly empty) text.
 func matchPat(pat, s string) bool {
-	if strings.HasSuffix(pat, "*") {
-		return strings.HasPrefix(s, strings.TrimSuffix(pat, "*"))
+	parts := strings.Split(pat, "*")
+	if len(parts) == 1 {
+		return pat == s
 	}
-	return pat == s
+	if !strings.HasPrefix(s, parts[0]) {
+		return false
+	}
+	s = s[len(parts[0]):]
+	for _, mid := range parts[1 : len(parts)-1] {
+		i := strings.Index(s, mid)
+		if i < 0 {
+			return false
+		}
+		s = s[i+len(mid):]
+	}
+	return strings.HasSuffix(s, parts[len(parts)-1])
 }
